@@ -216,13 +216,14 @@ def drive_api(item):
         backend = TrackingBackend(wd, name="rec", ops=ops)
         hashes = get_spec_hashes(working_dir=wd, config=config)
         sel = scn["sel"]
-        endpoints = {graph[perm[t]] for t in sel} if sel else graph.endpoints()
+        endpoints = set() if scn.get("nomatch") else ({graph[perm[t]] for t in sel} if sel else graph.endpoints())
         submit_workflow(endpoints, graph, fs, hashes, backend)
         obs["subs"] = [{"t": inv[s["t"]], "id": s["id"], "deps": s["deps"], "kind": "api" if s["deps"] else "none"} for s in ops.subs]
         obs["has_subs"] = True
     except Exception as exc:  # noqa: BLE001 - every failure is an observation
         obs["err"] = "%s: %s" % (type(exc).__name__, exc)
     s2 = dict(scn)
+    s2.setdefault("nomatch", False)
     s2["trk"] = {inv[n]: j for n, j in trk.items()}
     s2["shapes"] = shapes
     s2["variant"] = variant
